@@ -435,7 +435,7 @@ CHECKERS = {'config': check_config, 'args': check_args}
 
 def _configs(tier, seed):
     if tier == 'quick':
-        shapes = [[2, 3], [3, 2, 3], [2, 2, 2, 2], [3, 1, 2]]
+        shapes = [[2, 3], [3, 2, 3], [2, 2, 2, 2], [3, 1, 2], [5, 4, 6]]
         rhos, r0s, N = [1, 2], [1, 2], 2
         drs = [(0, 0), (1, 1), (0, 2)]
     else:
